@@ -44,16 +44,24 @@ pub fn gen_values<W: TWord>(n: usize, kind: u8, bits: u32) -> Vec<W> {
     let m = mask64(bits);
     (0..n)
         .map(|i| {
-            let v = match kind % 5 {
+            let v = match kind % 6 {
                 0 => i as u64 & mask64(W::WBITS),
                 1 => 0,
                 2 => m,
                 3 => (i as u64).wrapping_mul(0x9E37_79B9_7F4A_7C15).rotate_left(23) & m,
-                _ => {
+                4 => {
                     if i == n / 2 {
                         m
                     } else {
                         (i % 3) as u64 & m
+                    }
+                }
+                _ => {
+                    // the maximum is an exact power of two
+                    if i == n / 3 {
+                        1u64 << (bits - 1)
+                    } else {
+                        (i as u64).wrapping_mul(0x2545_F491_4F6C_DD1D) & (m >> 1)
                     }
                 }
             };
@@ -130,7 +138,8 @@ where
     cx.label_if(n == 0, "n=0");
     cx.label_if(n > 100 && n <= 100_000, "n<=100k");
     cx.label_if(n > 100_000, "n>100k");
-    cx.label_if(spec.val_kind % 5 == 1, "all_zero_values");
+    cx.label_if(spec.val_kind % 6 == 1, "all_zero_values");
+    cx.label_if(spec.val_kind % 6 == 5, "max_value_power_of_two");
     spec.cfg.label(cx, n);
     cx.nontrivial_if(n >= 1);
     if mwhc_never_converges(logic_name::<S, E>(), n) && cx.excluded(KF_MWHC) {
@@ -171,7 +180,7 @@ pub fn decode_spec(u: &mut Unstructured, mode: u8, tier: Tier) -> Spec {
     };
     let cfg = Cfg::decode(u);
     let cfg2 = if mode == 0 && u.int_in_range(0u8..=2).unwrap_or(0) == 0 { Some(Cfg::decode(u)) } else { None };
-    Spec { row, n, key_style: u.int_in_range(0u8..=2).unwrap_or(0), val_kind: u.int_in_range(0u8..=4).unwrap_or(0), val_bits: u.int_in_range(1u32..=64).unwrap_or(8), cfg, cfg2 }
+    Spec { row, n, key_style: u.int_in_range(0u8..=2).unwrap_or(0), val_kind: u.int_in_range(0u8..=5).unwrap_or(0), val_bits: u.int_in_range(1u32..=64).unwrap_or(8), cfg, cfg2 }
 }
 
 impl Property for C07 {
@@ -210,7 +219,7 @@ impl Property for C07 {
                 cfg.threads = 1;
             }
             cx.label("enumerated-n");
-            Spec { row, n, key_style: 0, val_kind: (j % 5) as u8, val_bits: 1 + (j % 64) as u32, cfg, cfg2: None }
+            Spec { row, n, key_style: 0, val_kind: (j % 6) as u8, val_bits: 1 + (j % 64) as u32, cfg, cfg2: None }
         } else {
             let mut u = Unstructured::new(rest);
             decode_spec(&mut u, *mode, cx.tier)
